@@ -73,6 +73,80 @@ impl RenameExt for String {
     }
 }
 
+/// Apply a serde `rename_all` rule to a struct field identifier. Unknown rules leave the name
+/// unchanged.
+///
+/// `lowercase`, `UPPERCASE`, `PascalCase` and `camelCase` follow `serde_derive`
+/// (`RenameRule::apply_to_field`) exactly. The snake/kebab family additionally splits words at
+/// uppercase letters (serde only replaces `_`); identical for conventional snake_case fields.
+pub(crate) fn rename_field(rule: &str, field: &str) -> String {
+    match rule {
+        "UPPERCASE" => field.to_ascii_uppercase(),
+        "PascalCase" => {
+            let mut pascal = String::new();
+            let mut capitalize = true;
+            for ch in field.chars() {
+                if ch == '_' {
+                    capitalize = true;
+                } else if capitalize {
+                    pascal.push(ch.to_ascii_uppercase());
+                    capitalize = false;
+                } else {
+                    pascal.push(ch);
+                }
+            }
+            pascal
+        }
+        "camelCase" => lowercase_first(&rename_field("PascalCase", field)),
+        "snake_case" => field.to_string().to_snake_case(),
+        "SCREAMING_SNAKE_CASE" => field.to_string().to_screaming_snake_case(),
+        "kebab-case" => field.to_string().to_kebab_case(),
+        "SCREAMING-KEBAB-CASE" => field.to_string().to_screaming_kebab_case(),
+        // "lowercase" leaves fields alone, as do unknown rules
+        _ => field.to_owned(),
+    }
+}
+
+/// Apply a serde `rename_all` rule to an enum variant identifier, exactly as
+/// `serde_derive` does (`RenameRule::apply_to_variant`). Unknown rules leave the name unchanged.
+pub(crate) fn rename_variant(rule: &str, variant: &str) -> String {
+    let snake = || {
+        let mut snake = String::new();
+        for (i, ch) in variant.char_indices() {
+            if i > 0 && ch.is_uppercase() {
+                snake.push('_');
+            }
+            snake.push(ch.to_ascii_lowercase());
+        }
+        snake
+    };
+    match rule {
+        "lowercase" => variant.to_ascii_lowercase(),
+        "UPPERCASE" => variant.to_ascii_uppercase(),
+        "camelCase" => lowercase_first(variant),
+        "snake_case" => snake(),
+        "SCREAMING_SNAKE_CASE" => snake().to_ascii_uppercase(),
+        "kebab-case" => snake().replace('_', "-"),
+        "SCREAMING-KEBAB-CASE" => snake().to_ascii_uppercase().replace('_', "-"),
+        // "PascalCase" leaves variants alone, as do unknown rules
+        _ => variant.to_owned(),
+    }
+}
+
+/// ASCII-lowercase the first character (never slices inside a multi-byte character).
+fn lowercase_first(s: &str) -> String {
+    let mut chars = s.chars();
+    match chars.next() {
+        Some(first) => {
+            let mut out = String::with_capacity(s.len());
+            out.push(first.to_ascii_lowercase());
+            out.push_str(chars.as_str());
+            out
+        }
+        None => String::new(),
+    }
+}
+
 #[cfg(test)]
 mod tests {
     use super::*;
